@@ -86,7 +86,7 @@ struct Task {
 	int held = 0;          // pool locks held
 	SimMutex *blocked_on = nullptr;
 	// spin detection
-	int spin_n = 0, nwatch = 0;
+	int spin_n = 0, nwatch = 0, spin_limit = 16;
 	uint64_t watch_off[4]; uint64_t watch_val[4];
 	bool last_cas_spurious = false;
 	// fences
@@ -222,6 +222,7 @@ static void switch_to(int next) {
 }
 
 static void all_blocked(); // deadlock or completion
+static void spin_reset(Task &t) { t.spin_n = 0; t.nwatch = 0; }
 
 // one scheduling decision; forced = current task cannot continue
 static int decide(bool forced, int kind) {
@@ -297,6 +298,17 @@ static void all_blocked() {
 		for (int t = 1; t <= r.ntasks; t++) if (r.tasks[t].st == T_ATBAR) { r.tasks[t].st = T_RUN; any = true; }
 		if (any) { r.bar_released = true; r.fair = true; int n = lowest_enabled(); switch_to(n); return; }
 	}
+	// A task parked by the spin heuristic may merely be in a long bounded loop of identical loads
+	// (e.g. scanning a bitmask): before declaring a deadlock, let such tasks continue with a 16x
+	// larger threshold. A real spin escalates to 2^20 unchanged loads and is then reported.
+	{
+		bool woke = false;
+		for (int t = 1; t <= r.ntasks; t++) {
+			Task &x = r.tasks[t];
+			if (x.st == T_PARKED && x.spin_limit < (1 << 20)) { x.spin_limit *= 16; x.st = T_RUN; spin_reset(x); woke = true; }
+		}
+		if (woke) { int n = lowest_enabled(); switch_to(n); return; }
+	}
 	// describe
 	char buf[512]; int n = 0;
 	for (int t = 1; t <= r.ntasks && n < 400; t++) {
@@ -309,9 +321,9 @@ static void all_blocked() {
 
 static inline void sched_point(int kind) {
 	Run &r = *R;
-	if (r.cur == 0) return;
 	r.steps++;
-	if (r.steps > r.cap2) violation("no_progress", "step cap %llu exceeded in fair phase", (unsigned long long)r.cap2);
+	if (r.steps > r.cap2) violation("no_progress", "step cap %llu exceeded (%s)", (unsigned long long)r.cap2, r.cur == 0 ? "setup/teardown context" : "fair phase");
+	if (r.cur == 0) return;
 	if (!r.fair && r.steps > r.cap1) { r.fair = true; r.res.capped = true; }
 	int next = decide(false, kind);
 	if (next != r.cur) switch_to(next);
@@ -324,7 +336,6 @@ void yield() {
 	sched_point(K_YIELD);
 }
 
-static void spin_reset(Task &t) { t.spin_n = 0; t.nwatch = 0; }
 void progress() { if (R && R->active) spin_reset(R->tasks[R->cur]); }
 
 // ------------------------------------------------------------------ race detector
@@ -555,7 +566,7 @@ static void spin_account(Task &t, uint64_t o, uint64_t val, Loc &L) {
 		if (t.watch_val[i] == val) t.spin_n++; else { t.spin_n = 1; t.nwatch = 1; t.watch_off[0] = o; t.watch_val[0] = val; }
 	} else if (t.nwatch < 4) { t.watch_off[t.nwatch] = o; t.watch_val[t.nwatch] = val; t.nwatch++; t.spin_n++; }
 	else { t.spin_n = 1; t.nwatch = 1; t.watch_off[0] = o; t.watch_val[0] = val; }
-	if (t.spin_n < 16) return;
+	if (t.spin_n < t.spin_limit) return;
 	// spinning: park until someone stores to a watched location — unless a newer store is merely not yet visible
 	bool newer = false;
 	for (int j = 0; j < t.nwatch; j++) {
